@@ -9,7 +9,7 @@ BASELINE_OFF = ("cmake -G Ninja -B /repo/_build -S /repo >/dev/null && cmake --b
 
 # id -> dict(level, text, note, technique)
 # properties whose check is built, validated (3 seeds silent, mutants caught) and claimed
-READY = ["C01", "C02", "C03", "C04", "C05", "C07", "C08", "C09", "C10", "C11", "C12", "C15", "C16", "C17", "C19", "C20"]
+READY = ["C01", "C02", "C03", "C04", "C05", "C07", "C08", "C09", "C10", "C11", "C12", "C13", "C14", "C15", "C16", "C17", "C18", "C19", "C20"]
 
 CHECKS = {
     "C01": dict(
@@ -125,6 +125,27 @@ CHECKS = {
              "per-key linearizability checking (reads overlapping a write or an expiry instant accept either side). plain+asan histories, tsan for the concurrent part.",
         note="Convention checked: expired iff now >= expiry (what every read path in kvstore.hpp implements); model resolution 1 ms; wall-clock jumps inside a single API call and 100 MiB values are out of reach.",
         technique="runtime monitoring: reference-model differential after every step under a controlled wall clock + per-key linearizability checking, ASan/TSan"),
+    "C13": dict(
+        level="exploration",
+        text="Python generates RFC 8259 texts from the grammar (every escape form incl. \\uXXXX and surrogate pairs, every number form, duplicate keys, depths and sizes up to and just beyond each "
+             "ParseLimits value) and values (finite doubles incl. subnormals, +-0, 1e+-308, 17-digit cases, int64 boundaries, valid UTF-8 incl. control characters); a batch driver built with "
+             "ASan+UBSan at -O0 parses/dumps with the real Json code and emits a canonical typed rendering (exact integer text, doubles as 64-bit hex, strings as UTF-8 hex). Python's json module "
+             "(with parse_int/parse_float hooks) is the independent reference: decoded values must agree, every dump (compact / pretty / sorted) must be accepted by the reference and parse back to an "
+             "equal value, JsonFileStore round-trips through its public API. 50k mutated byte strings and large pathological inputs go through the robustness oracle: documented exception types only, "
+             "error offset inside the input, sanitizer silence, CPU time linear in the input (re-measured alone). Thorough: x100 and a libFuzzer target with the same in-process assertions.",
+        note="Texts iora accepts but the reference rejects are counted, not judged (the property speaks about valid texts and arbitrary bytes' robustness). The step guard is thread CPU time (no PMU in this VM), "
+             "best of three isolated re-runs.",
+        technique="runtime monitoring: differential against Python json + round-trip + mutation robustness under ASan/UBSan, CPU-time monitor, libFuzzer"),
+    "C14": dict(
+        level="exploration",
+        text="Python builds random trees and serialises them with randomised surface syntax (quote styles, whitespace, entity and character references incl. astral code points, CDATA, comments, PIs, "
+             "doctype with internal subset incl. brackets inside literals/comments, namespaces/prefixes); oracle 1 is the generating tree, oracle 2 is xml.parsers.expat on documents both accept. The "
+             "real pull, SAX and DOM interfaces are driven by an ASan+UBSan (-O0) batch driver that emits canonical event streams and checks that every string_view of every token lies inside "
+             "[input.begin, input.end]. For 100k mutants x 4 option sets and limit sweeps (each limit at 0 / 1 / exact / exact+1) an independent tag-balance scanner and limit recomputation run over "
+             "the tokens iora emitted: an accepted document must be balanced and within limits; undefined/external entities must be refused; CPU time linear. Thorough: x100 and libFuzzer.",
+        note="Supported-subset normalisation as fixed in DESIGN §3 C14 (leading XML whitespace of text stripped, whitespace-only text absent, <?xml ...?> reported as a PI; PI data compared with expat after "
+             "stripping the target separator). DTD-defined entities and non-UTF-8 encodings are outside the subset.",
+        technique="runtime monitoring: generating-tree and expat differential + independent balance/limit recomputation + slice-range checks under ASan/UBSan, libFuzzer"),
     "C15": dict(
         level="exploration",
         text="A Python generator with its own HTTP/1.1 encoder (header sets, bodies 0..cap, every chunk-size pattern with extensions and trailers, interim 1xx, close-delimited bodies, "
@@ -158,6 +179,19 @@ CHECKS = {
         note="PUT/PATCH/extension methods have no public entry point and are reached through performRequest via explicit template instantiation. The 'waited beyond timeout' rule adds measured scheduling noise "
              "and must reproduce three times in isolation. HTTPS exchanges are covered by C07, not here.",
         technique="fault enumeration with a scripted server as observer: per-connection byte logs + syscall-order interposers, rules over logical facts"),
+    "C18": dict(
+        level="exploration",
+        text="A Python reference codec and protocol-aware generator (fragmentation, control frames between fragments, all length encodings at 125/126/65535/65536, masked/unmasked, invalid UTF-8, "
+             "close at any position; hostile dictionary: 2^64-1, 2^63, lengths just beyond the maximum, control frames with length codes 126/127, reserved opcodes, RSV bits) is the ground truth. "
+             "Frame level: 240k random round trips through the public WebSocketFrame parse/serialize with every truncation required to be 'incomplete' (18M checks). Endpoint level: a real "
+             "WebSocketServer after a real upgrade, fed through the protected onUpgradedData at EVERY single cut point and over the socket; a real WebSocketClient against a raw-socket server with "
+             "capped/short reads; delivered message lists must equal the generator's and agree across segmentations, pings must be answered with equal payloads, text must be valid UTF-8. Close races: "
+             "application threads sending in a loop while either side initiates close — the wire captured by the raw peer and parsed by the reference codec must show no data frame after the endpoint's "
+             "close frame. A counting operator new bounds allocation by 2 x max(configured maximum, bytes received) + 1 MiB; exceptions escaping the data path are caught or seen as process death. "
+             "plain+asan (+tsan for the races); thorough adds tsan everywhere and libFuzzer on the frame parser and the server data path.",
+        note="WebSocketClient has no protected data seam, so its segmentations are recv-capped/short-read/paced rather than byte-exact, and it has no configurable maximum. Extensions (RSV, per-message deflate) "
+             "are robustness-only. Verdicts that depend on a lost sync point must reproduce in an isolated re-run.",
+        technique="runtime monitoring: reference-codec differential over all single cut points + wire capture for close ordering + allocation counter, ASan/UBSan/TSan, libFuzzer"),
     "C19": dict(
         level="exploration",
         text="A Python DNS encoder with its own name compressor (random choice of compressed suffixes, pointers into RDATA names, every supported record type, 255-octet names) generates "
